@@ -9,14 +9,17 @@ from props import c12
 LEAN_TARGETS = ["PicoSVG.Props.C20"]
 RULE = ("pairs (s, T(s)) with T over translations, rotations, uniform / non-uniform scalings, mirrorings and general affine "
         "maps; unrelated pairs; near-miss pairs off by 1.1 x and 0.9 x the tolerance in one coordinate; tolerances 1e-3 .. 1; "
-        "shapes = closed and open outlines of lines, quadratics, cubics (and arcs for the correspondence); affine_between vs the "
-        "Lean model (None / matrix within 4 ulp); every reported matrix is re-verified by an independent per-command check; "
+        "shapes = one to three closed and open subpaths of lines, quadratics, cubics and elliptical arcs, spelled with absolute, "
+        "relative and H/V commands, and pairs of rects; arc flags flipped, later subpaths shifted; affine_between vs the "
+        "Lean model (None / matrix within 4 ulp); every reported matrix is re-verified on the outlines Spec.interp (Lean) "
+        "gives the two paths: control points command for command, arcs as sampled curves; "
         "non-trivial = distinct pair for which a non-identity transform is reported")
 ASSUMPTIONS = [
     "the Lean theorem is about the control structure of the Float model (every return passes the verification gate); that "
     "the gate itself (apply the matrix, compare command by command) means 'maps one outline onto the other' is checked on the "
-    "implementation by an independent evaluator for arc-free outlines",
-    "arcs: the radius scaling of the code is a heuristic; arcs are covered by the correspondence only",
+    "implementation by an independent evaluator on the outlines the Lean path interpreter gives both shapes",
+    "arcs are compared as curves (49 sampled points each way) with a slack of 3 x tolerance + 1% of the arc's extent: gross "
+    "differences (wrong sweep, wrong rotation) are seen, near-misses of an arc parameter are not",
 ]
 TRUSTED = ["harness/props/c20.py independent outline mapper", "Lean Float = libm (atan2, pow, sqrt)"]
 
@@ -49,17 +52,54 @@ def base_outline(rng, arcs=False):
         elif k < 0.9 or not arcs:
             cmds.append(("C", [r2(p[0] + rng.uniform(-5, 5)), r2(p[1] + rng.uniform(-5, 5)), r2(p[0] + rng.uniform(-5, 5)), r2(p[1] + rng.uniform(-5, 5)), p[0], p[1]]))
         else:
-            cmds.append(("A", [r2(rng.uniform(2, 10)), r2(rng.uniform(2, 10)), 0, rng.choice([0, 1]), rng.choice([0, 1]), p[0], p[1]]))
+            cmds.append(("A", [r2(rng.uniform(2, 10)), r2(rng.uniform(2, 10)), rng.choice([0, 0, 0, 30, 90]), rng.choice([0, 1]), rng.choice([0, 1]), p[0], p[1]]))
     if rng.random() < 0.8:
         cmds.append(("Z", []))
     return cmds
 
 
+def fnum(v):
+    v = float(v)
+    return str(int(v)) if v.is_integer() and abs(v) < 1e15 else repr(v)
+
+
 def d_of(cmds, style=0, rng=None):
+    """absolute M/L/Q/C/A/Z commands -> path data; style 1 re-spells them (relative letters for later movetos and
+    lines, H/V where a line is axis-parallel) without changing what is drawn"""
     out = []
+    cur = start = (0.0, 0.0)
+    first = True
     for c, a in cmds:
-        out.append(c + " ".join(repr(float(v)) if not float(v).is_integer() else str(int(v)) for v in a))
+        if c == "Z":
+            out.append("Z")
+            cur = start
+            continue
+        k = rng.random() if style else 1.0
+        if c == "L" and a[1] == cur[1] and k < 0.6:
+            out.append("H" + fnum(a[0]) if k < 0.4 else "h" + fnum(a[0] - cur[0]))
+        elif c == "L" and a[0] == cur[0] and k < 0.6:
+            out.append("V" + fnum(a[1]) if k < 0.4 else "v" + fnum(a[1] - cur[1]))
+        elif c in ("L", "M") and not first and k < 0.8:
+            out.append(c.lower() + " ".join(fnum(v) for v in (a[0] - cur[0], a[1] - cur[1])))
+        else:
+            out.append(c + " ".join(fnum(v) for v in a))
+        cur = (a[-2], a[-1])
+        if c == "M":
+            start = cur
+        first = False
     return " ".join(out)
+
+
+def multi_outline(rng, arcs=False):
+    """one to three subpaths; axis-parallel edges are common (H/V spellings)"""
+    cmds = []
+    for _ in range(rng.choice([1, 1, 1, 2, 2, 3])):
+        if rng.random() < 0.3:
+            x, y, w, h = rng.randint(-20, 20), rng.randint(-20, 20), rng.randint(2, 15), rng.randint(2, 15)
+            cmds += [("M", [x, y]), ("L", [x + w, y]), ("L", [x + w, y + h]), ("L", [x, y + h]), ("Z", [])]
+        else:
+            cmds += base_outline(rng, arcs)
+    return cmds
 
 
 def rtransform(rng):
@@ -83,16 +123,30 @@ def rtransform(rng):
     return k, (rng.uniform(0.5, 2), rng.uniform(-0.5, 0.5), rng.uniform(-0.5, 0.5), rng.uniform(0.5, 2), rng.uniform(-10, 10), rng.uniform(-10, 10))
 
 
-def map_cmds(cmds, A):
+def map_cmds(cmds, A, true_arcs=False):
+    """the image of the commands under A. Arc parameters: `true_arcs` gives the image ellipse where that is an arc with
+    simply related parameters (similarity transforms, mirrorings, axis-parallel scalings of an unrotated ellipse) and
+    None otherwise; without it the radii are scaled the way the implementation does (not the image in general)"""
     a, b, c, d, e, f = A
     out = []
     for l, args in cmds:
         if l == "A":
-            # uniform radii scaling only makes sense for similarity transforms; keep as generated
-            sx = math.hypot(a, b)
-            sy = math.hypot(c, d)
             x, y = args[5], args[6]
-            out.append((l, [args[0] * sx, args[1] * sy, args[2], args[3], args[4], a * x + c * y + e, b * x + d * y + f]))
+            nx, ny = a * x + c * y + e, b * x + d * y + f
+            sx, sy = math.hypot(a, b), math.hypot(c, d)
+            if not true_arcs:
+                out.append((l, [args[0] * sx, args[1] * sy, args[2], args[3], args[4], nx, ny]))
+                continue
+            det = a * d - b * c
+            sweep = args[4] if det > 0 else 1 - args[4]
+            if b == 0 and c == 0 and args[2] == 0:
+                out.append((l, [args[0] * abs(a), args[1] * abs(d), 0, args[3], sweep, nx, ny]))
+            elif abs(sx - sy) < 1e-12 * sx and abs(a * c + b * d) < 1e-12 * sx * sx:
+                th = math.degrees(math.atan2(b, a))
+                rot = th + args[2] if det > 0 else th - args[2]
+                out.append((l, [args[0] * sx, args[1] * sx, rot, args[3], sweep, nx, ny]))
+            else:
+                return None
             continue
         na = []
         for i in range(0, len(args), 2):
@@ -105,17 +159,27 @@ def map_cmds(cmds, A):
 def gen_pair(rng):
     tol = rng.choice([1e-3, 1e-2, 1e-1, 1.0, 0.05])
     k = rng.random()
-    arcs = rng.random() < 0.15
-    s1 = base_outline(rng, arcs)
-    if k < 0.55:
+    arcs = rng.random() < 0.3
+    s1 = multi_outline(rng, arcs) if rng.random() < 0.5 else base_outline(rng, arcs)
+    style = 1 if rng.random() < 0.4 else 0
+    if k < 0.5:
+        name, T = rtransform(rng)
+        s2 = map_cmds(s1, T, true_arcs=True)
+        kind = "image:" + name
+        if s2 is None:
+            s2 = map_cmds(s1, T)
+            kind = "arcimage:" + name
+    elif k < 0.56:
+        # radii scaled, rotation and flags kept: not the image of an arc under a rotation or a mirroring
         name, T = rtransform(rng)
         s2 = map_cmds(s1, T)
-        kind = "image:" + name
+        kind = ("arcimage:" if arcs else "image:") + name
     elif k < 0.62:
         s2 = [(c, list(a)) for c, a in s1]
         kind = "identical"
     elif k < 0.68:
         # one outline is a prefix of the other (continued / closed), possibly translated
+        s1 = base_outline(rng, arcs)
         base = [(c, list(a)) for c, a in s1 if c != "Z"]
         T = (1.0, 0.0, 0.0, 1.0, float(rng.choice([0, 0, 7, -3])), float(rng.choice([0, 0, 4])))
         longer = map_cmds(base, T)
@@ -129,12 +193,34 @@ def gen_pair(rng):
         if rng.random() < 0.5:
             s1, s2 = s2, s1
         kind = "prefix"
-    elif k < 0.8:
-        s2 = base_outline(rng, arcs)
+    elif k < 0.76:
+        s2 = multi_outline(rng, arcs) if rng.random() < 0.5 else base_outline(rng, arcs)
         kind = "unrelated"
+    elif k < 0.8:
+        # same commands, arc flags or later subpaths changed: never the same outline
+        s2 = [(c, list(a)) for c, a in s1]
+        flips = [i for i, (c, _) in enumerate(s2) if c == "A"]
+        moves = [i for i, (c, _) in enumerate(s2) if c == "M"][1:]
+        if flips and (not moves or rng.random() < 0.6):
+            i = rng.choice(flips)
+            s2[i][1][rng.choice([3, 4])] ^= 1
+            kind = "arcflag"
+        elif moves:
+            # everything from a later subpath on is shifted
+            i = rng.choice(moves)
+            dx, dy = rng.choice([(6.0, 0.0), (0.0, -4.0), (3.0, 5.0)])
+            s2 = s2[:i] + map_cmds(s2[i:], (1.0, 0.0, 0.0, 1.0, dx, dy))
+            kind = "subpathshift"
+        else:
+            kind = "identical"
+        if kind != "identical" and rng.random() < 0.5:
+            T = (1.0, 0.0, 0.0, 1.0, float(rng.randint(-9, 9)), float(rng.randint(-9, 9)))
+            s2 = map_cmds(s2, T)
     else:
         name, T = rtransform(rng)
-        s2 = map_cmds(s1, T)
+        if rng.random() < 0.4:
+            name, T = "identity", (1.0, 0.0, 0.0, 1.0, 0.0, 0.0)
+        s2 = map_cmds(s1, T, true_arcs=True) or map_cmds(s1, T)
         # near miss: perturb one coordinate of one command
         idx = rng.randrange(1, len(s2))
         if s2[idx][1]:
@@ -142,12 +228,38 @@ def gen_pair(rng):
             if s2[idx][0] != "A" or j >= 5:
                 s2[idx][1][j] += rng.choice([1.1, 0.9, -1.1, 3.0]) * tol
         kind = "nearmiss:" + name
-    return {"kind": kind, "tol": tol, "d1": d_of(s1), "d2": d_of(s2), "s1": s1, "s2": s2}
+    return {"kind": kind, "tol": tol, "d1": d_of(s1, style, rng), "d2": d_of(s2, style, rng)}
+
+
+def rect_pair(rng):
+    """two basic shapes compared through as_path(): the identity fast path sees their raw H/V/A commands"""
+    x, y, w, h = rng.randint(-9, 9), rng.randint(-9, 9), rng.randint(2, 12), rng.randint(2, 12)
+    r = rng.choice([0, 0, 1, 2])
+    tol = rng.choice([1e-3, 1e-2, 0.1, 1.0])
+    k = rng.random()
+    if k < 0.4:
+        b = (x, y, w + rng.choice([0, 1, 3]) * rng.choice([1, 2]) * max(tol, 0.5) * 3, h, r)
+    elif k < 0.7:
+        b = (x, y, w, h + rng.choice([1, 2, 5]) * max(tol, 0.5) * 3, r)
+    else:
+        b = (x + rng.randint(-5, 5), y + rng.randint(-5, 5), w, h, r)
+    return {"kind": "rects", "tol": tol, "r1": (x, y, w, h, r), "r2": b}
 
 
 def impl_between(d1, d2, tol):
     affine_between, SVGPath = impl()
     o, v = common.outcome_of(lambda: affine_between(SVGPath(d=d1), SVGPath(d=d2), tol))
+    if o != "ok":
+        return o
+    return "ok None" if v is None else "ok " + " ".join(hexf(x) for x in v)
+
+
+def rect_between(p):
+    affine_between, SVGPath = impl()
+    from picosvg.svg_types import SVGRect
+    mk = lambda r: SVGRect(x=r[0], y=r[1], width=r[2], height=r[3], rx=r[4], ry=r[4])  # noqa: E731
+    p["d1"], p["d2"] = mk(p["r1"]).as_path().d, mk(p["r2"]).as_path().d
+    o, v = common.outcome_of(lambda: affine_between(mk(p["r1"]), mk(p["r2"]), p["tol"]))
     if o != "ok":
         return o
     return "ok None" if v is None else "ok " + " ".join(hexf(x) for x in v)
@@ -198,52 +310,136 @@ def rel_steps(cmds):
     return out
 
 
-def verify(A, s1, s2, tol):
-    """does A map outline s1 onto s2, command for command, within tol (relative coordinates)?"""
-    if any(l == "A" for l, _ in s1 + s2):
-        return None
+def arc_points(v, n=48):
+    """points of the elliptical arc segment (Spec.interp encoding) relative to its start point"""
+    x0, y0, rx, ry, rot, large, sweep, x1, y1 = v
+    if (x0, y0) == (x1, y1):
+        return [(0.0, 0.0)]
+    if rx == 0 or ry == 0:
+        return [((x1 - x0) * i / n, (y1 - y0) * i / n) for i in range(n + 1)]
+    cx, cy, rx, ry, phi, t1, dt = c12.true_params((x0, y0, rx, ry, rot, int(large != 0), int(sweep != 0), x1, y1))
+    c, s_ = math.cos(phi), math.sin(phi)
+    out = []
+    for i in range(n + 1):
+        t = t1 + dt * i / n
+        ex, ey = rx * math.cos(t), ry * math.sin(t)
+        out.append((cx + c * ex - s_ * ey - x0, cy + s_ * ex + c * ey - y0))
+    return out
+
+
+def poly_dist(p, poly):
+    best = float("inf")
+    for i in range(len(poly) - 1):
+        (ax, ay), (bx, by) = poly[i], poly[i + 1]
+        dx, dy = bx - ax, by - ay
+        L = dx * dx + dy * dy
+        t = 0.0 if L == 0 else max(0.0, min(1.0, ((p[0] - ax) * dx + (p[1] - ay) * dy) / L))
+        best = min(best, math.hypot(p[0] - ax - t * dx, p[1] - ay - t * dy))
+    if len(poly) == 1:
+        best = math.hypot(p[0] - poly[0][0], p[1] - poly[0][1])
+    return best
+
+
+def verify(A, g1, g2, tol):
+    """does A map outline 1 onto outline 2, command for command, within tol (coordinates relative to each command's start
+    point, as the implementation compares them)?  g1, g2: segments of Spec.interp (Lean), absolute coordinates.
+    Arcs are judged as curves: sampled points of the mapped arc against the other arc (both directions)."""
     a, b, c, d, e, f = A
-    r1, r2_ = rel_steps(s1), rel_steps(s2)
-    if [l for l, _ in r1] != [l for l, _ in r2_]:
-        return "command letters differ"
+    if [k for k, _ in g1] != [k for k, _ in g2]:
+        return "drawn segments differ in kind: %s vs %s" % ("".join(k for k, _ in g1), "".join(k for k, _ in g2))
     slack = tol * 1e-6 + 1e-9
-    first = True
-    for (l, v1), (_, v2) in zip(r1, r2_):
-        for (x, y), (u, w) in zip(v1, v2):
-            if l == "M" and first:
-                mx, my = a * x + c * y + e, b * x + d * y + f
+    cur1 = cur2 = None
+    for i, ((k, v1), (_, v2)) in enumerate(zip(g1, g2)):
+        if k == "M":
+            if cur1 is None:
+                mx, my = a * v1[0] + c * v1[1] + e, b * v1[0] + d * v1[1] + f
+                u, w = v2[0], v2[1]
             else:
+                x, y = v1[0] - cur1[0], v1[1] - cur1[1]
                 mx, my = a * x + c * y, b * x + d * y
+                u, w = v2[0] - cur2[0], v2[1] - cur2[1]
             if abs(mx - u) > tol + slack or abs(my - w) > tol + slack:
-                return "command %s: image (%.6g, %.6g) vs target (%.6g, %.6g) differ by more than %g" % (l, mx, my, u, w, tol)
-        if l == "M":
-            first = False
+                return "moveto %d: image (%.6g, %.6g) vs target (%.6g, %.6g) differ by more than %g" % (i, mx, my, u, w, tol)
+            cur1, cur2 = (v1[0], v1[1]), (v2[0], v2[1])
+            continue
+        if k == "Z":
+            cur1, cur2 = (v1[-2], v1[-1]), (v2[-2], v2[-1])
+            continue
+        if k == "A":
+            P1 = [(a * x + c * y, b * x + d * y) for x, y in arc_points(v1)]
+            P2 = arc_points(v2)
+            ext = max([math.hypot(*q) for q in P2] + [math.hypot(*q) for q in P1] + [1e-9])
+            lim = 3 * tol + 0.01 * ext
+            worst = max([poly_dist(q, P2) for q in P1[::4]] + [poly_dist(q, P1) for q in P2[::4]])
+            if worst > lim:
+                return "arc %d: the image of the first arc and the second arc are %.4g apart (extent %.4g, tolerance %g)" % (i, worst, ext, tol)
+            cur1, cur2 = (v1[-2], v1[-1]), (v2[-2], v2[-1])
+            continue
+        p0, q0 = (v1[0], v1[1]), (v2[0], v2[1])
+        for j in range(2, len(v1), 2):
+            x, y = v1[j] - p0[0], v1[j + 1] - p0[1]
+            mx, my = a * x + c * y, b * x + d * y
+            u, w = v2[j] - q0[0], v2[j + 1] - q0[1]
+            if abs(mx - u) > tol + slack or abs(my - w) > tol + slack:
+                return "segment %d (%s): image (%.6g, %.6g) vs target (%.6g, %.6g) differ by more than %g" % (i, k, mx, my, u, w, tol)
+        cur1, cur2 = (v1[-2], v1[-1]), (v2[-2], v2[-1])
+    return None
+
+
+def outlines(ctx, ds):
+    """Spec.interp (Lean) of each path string -> segment lists (None where the specification gives no meaning)"""
+    from props import c09
+    outs = ctx.model(["spec\tinterp\t" + esc(d) for d in ds])
+    return [c09.parse_segs(o) for o in outs]
+
+
+def judge_pair(p, r, g1, g2):
+    """the property on one pair: r = what affine_between answered, g1/g2 = the outlines per Spec.interp"""
+    inp = {k: p[k] for k in ("d1", "d2", "tol", "kind")}
+    if not r.startswith("ok"):
+        return None
+    if g1 is None or g2 is None:
+        return None
+    if r == "ok None":
+        if p["kind"] == "identical":
+            return {"kind": "reuse-law", "input": inp, "detail": "identical shapes but no transform reported"}
+        if p["kind"] == "image:translate":
+            return {"kind": "reuse-law", "input": inp, "detail": "an exact translation of the shape was not found"}
+        return None
+    A = [unhex(h) for h in r.split()[1:]]
+    why = verify(A, g1, g2, p["tol"])
+    if why:
+        return {"kind": "reuse-law", "input": inp,
+                "detail": "reported %s does not map the first outline onto the second: %s" % (tuple(round(v, 6) for v in A), why)}
+    if p["kind"] == "identical" and any(abs(x - y) > (0 if p["d1"] == p["d2"] else 1e-9) for x, y in zip(A, (1, 0, 0, 1, 0, 0))):
+        return {"kind": "reuse-law", "input": inp, "detail": "identical shapes but %s reported" % (A,)}
     return None
 
 
 def search(ctx, disagreements):
     pairs = getattr(ctx, "_pairs", None) or [gen_pair(ctx.rng) for _ in range(600)]
+    rects = [rect_pair(ctx.rng) for _ in range(600 if ctx.thorough() or ctx.escalate else 150)]
+    for p in rects:
+        p["impl"] = rect_between(p)
+        ctx.count("rects->" + ("none" if p["impl"] == "ok None" else "found" if p["impl"].startswith("ok") else p["impl"]))
+    pairs = pairs + rects
     found = []
-    for p in pairs:
+    if not ctx.driver_ok:
+        ctx.count("judge-skipped-no-driver", len(pairs))
+        return found
+    gs = outlines(ctx, [p["d1"] for p in pairs] + [p["d2"] for p in pairs])
+    n = len(pairs)
+    for i, p in enumerate(pairs):
         r = p.get("impl") or impl_between(p["d1"], p["d2"], p["tol"])
         if not r.startswith("ok"):
             # an exception reports no transform: outside the property (counted, compared with the model)
             ctx.count("raised:" + r)
             continue
-        if r == "ok None":
-            if p["kind"] == "identical":
-                found.append({"kind": "reuse-law", "input": {k: p[k] for k in ("d1", "d2", "tol")}, "detail": "identical shapes but no transform reported"})
-            elif p["kind"] == "image:translate":
-                found.append({"kind": "reuse-law", "input": {k: p[k] for k in ("d1", "d2", "tol")}, "detail": "an exact translation of the shape was not found"})
-            continue
-        A = [unhex(h) for h in r.split()[1:]]
-        ctx.count("verified")
-        why = verify(A, p["s1"], p["s2"], p["tol"])
-        if why:
-            found.append({"kind": "reuse-law", "input": {k: p[k] for k in ("d1", "d2", "tol", "s1", "s2")},
-                          "detail": "reported %s does not map the first outline onto the second: %s" % (tuple(round(v, 6) for v in A), why)})
-        if p["kind"] == "identical" and tuple(A) != (1, 0, 0, 1, 0, 0):
-            found.append({"kind": "reuse-law", "input": {k: p[k] for k in ("d1", "d2", "tol")}, "detail": "identical shapes but %s reported" % (A,)})
+        if r != "ok None":
+            ctx.count("verified" + (":arcs" if "A" in p["d1"] else ""))
+        v = judge_pair(p, r, gs[i], gs[n + i])
+        if v:
+            found.append(v)
     ctx.stats["evaluations"] = ctx.stats.get("evaluations", 0) + len(pairs)
     return found
 
@@ -256,9 +452,7 @@ def replay(ctx, payload):
     if payload.get("kind") == "reuse-law":
         i = payload["input"]
         r = impl_between(i["d1"], i["d2"], i["tol"])
-        res = {"impl": r}
-        if r.startswith("ok ") and r != "ok None" and "s1" in i:
-            res["verify"] = verify([unhex(h) for h in r.split()[1:]], i["s1"], i["s2"], i["tol"])
-        res["fails"] = bool(res.get("verify")) or not r.startswith("ok")
-        return res
+        g1, g2 = outlines(ctx, [i["d1"], i["d2"]])
+        v = judge_pair(dict(i, kind=i.get("kind", "")), r, g1, g2)
+        return {"impl": r, "verdict": v and v["detail"], "fails": bool(v)}
     return {"fails": bool(ctx.tie_breaks), "no_longer_checks": ctx.tie_breaks}
